@@ -902,7 +902,10 @@ func e2eCase(idx int64, param string) (g *corpGroup, list []int, lay layoutT) {
 	return
 }
 
-func buildIndex(list []int, lay layoutT) (*bluge.Reader, string) {
+func buildIndex(list []int, lay layoutT) (*bluge.Reader, string) { return buildIndexAt(list, 0, lay) }
+
+// buildIndexAt: the documents get the ids of the positions off, off+1, ...
+func buildIndexAt(list []int, off int, lay layoutT) (*bluge.Reader, string) {
 	dir := crashfs.New()
 	dir.Points = false
 	var fail string
@@ -927,7 +930,7 @@ func buildIndex(list []int, lay layoutT) (*bluge.Reader, string) {
 				b = bluge.NewBatch()
 				n = 0
 			}
-			b.Insert(makeDoc(idByPos[i], kinds[k]))
+			b.Insert(makeDoc(idByPos[off+i], kinds[k]))
 			n++
 		}
 		if n > 0 {
@@ -969,15 +972,43 @@ type hit struct {
 
 type e2e struct {
 	r      *bluge.Reader
+	rs     []*bluge.Reader // when set: bluge.MultiSearch over these readers, hits identified by their stored _id
 	list   []int
 	numPos map[uint64]int // document number -> position in the list
+}
+
+func (x *e2e) search(req bluge.SearchRequest) (search.DocumentMatchIterator, error) {
+	if len(x.rs) > 0 {
+		return bluge.MultiSearch(bg, req, x.rs...)
+	}
+	return x.r.Search(bg, req)
+}
+
+func (x *e2e) posOf(m *search.DocumentMatch) (int, bool) {
+	if len(x.rs) == 0 {
+		p, ok := x.numPos[m.Number]
+		return p, ok
+	}
+	var id string
+	_ = m.VisitStoredFields(func(f string, v []byte) bool {
+		if f == "_id" {
+			id = string(v)
+		}
+		return true
+	})
+	for i := range x.list {
+		if idByPos[i] == id {
+			return i, true
+		}
+	}
+	return -1, false
 }
 
 func (x *e2e) run(req bluge.SearchRequest) ([]hit, string) {
 	var out []hit
 	var fail string
 	verifmc.Quiet(func() {
-		it, err := x.r.Search(bg, req)
+		it, err := x.search(req)
 		if err != nil {
 			fail = "Search: " + err.Error()
 			return
@@ -991,7 +1022,7 @@ func (x *e2e) run(req bluge.SearchRequest) ([]hit, string) {
 			if m == nil {
 				return
 			}
-			p, ok := x.numPos[m.Number]
+			p, ok := x.posOf(m)
 			if !ok {
 				fail = fmt.Sprintf("hit with document number %d which is not a live document", m.Number)
 				return
@@ -1017,7 +1048,7 @@ func (x *e2e) reference(qi int) (map[int]float64, string) {
 	scores := map[int]float64{}
 	var fail string
 	verifmc.Quiet(func() {
-		it, err := x.r.Search(bg, bluge.NewAllMatches(queryOf(qi)))
+		it, err := x.search(bluge.NewAllMatches(queryOf(qi)))
 		if err != nil {
 			fail = err.Error()
 			return
@@ -1122,14 +1153,18 @@ func e2eEval(idx int64, param string) *explore.Result {
 	}
 	defer r.Close()
 	x := &e2e{r: r, list: list, numPos: map[uint64]int{}}
-	h := fnv.New64a()
 	maxKeys := g.keysOther
 	if lay.main {
 		maxKeys = g.keysMain
 	}
-	nord := nOrders(4, maxKeys)
+	return e2eCore(x, res, where, nOrders(4, maxKeys), 4, param == "thorough", idx%97 == 0, lay.String())
+}
+
+// e2eCore: every query x order x (n, from) x paging chain on the reader(s) of x
+func e2eCore(x *e2e, res *explore.Result, where string, nord int64, ntypes int, bothID bool, sample bool, layName string) *explore.Result {
+	list := x.list
+	h := fnv.New64a()
 	L := len(list)
-	bothID := param == "thorough"
 	failf := func(key, format string, a ...interface{}) *explore.Result {
 		res.Key = key
 		res.Failure = key + ": " + fmt.Sprintf(format, a...) + "   corpus in index order: " + corpusString(list)
@@ -1201,7 +1236,7 @@ func e2eEval(idx int64, param string) *explore.Result {
 			return nil
 		}
 		for oi := int64(0); oi < nord; oi++ {
-			order := orderOf(oi, 4)
+			order := orderOf(oi, ntypes)
 			owhere := qwhere + " order=" + orderString(order)
 			// (a) the order as given: ties fall back to index order; (n, from) grid
 			full := toPos(refOrder(rows, order))
@@ -1332,17 +1367,182 @@ func e2eEval(idx int64, param string) *explore.Result {
 				}
 			}
 		}
-		if qi == 1 && idx%97 == 0 && len(rows) > 1 {
+		if qi == 1 && sample && len(rows) > 1 {
 			sc := map[string]float64{}
 			for p, s := range scores {
 				sc[idByPos[p]] = s
 			}
 			o := []keyT{{typ: tScore, desc: true}, {typ: tNum, first: true}}
-			res.Sample = map[string]interface{}{"layer": "end-to-end", "corpus": corpusString(list), "layout": lay.String(), "query": queryName[qi], "scores": sc,
+			res.Sample = map[string]interface{}{"layer": "end-to-end", "corpus": corpusString(list), "layout": layName, "query": queryName[qi], "scores": sc,
 				"orders_checked": nord, "example_order": orderString(o), "example_full_ranking": posString(list, toPos(refOrder(rows, o)))}
 		}
 	}
-	res.Outcome = fmt.Sprintf("%s|%s|%x", kindList(list), lay, h.Sum64())
+	res.Outcome = fmt.Sprintf("%s|%s|%x", kindList(list), layName, h.Sum64())
+	return res
+}
+
+// enumeration 6: the collector around its second internal boundary, the
+// pre-allocation cap of 1000 (PreAllocSizeSkipCap): tie-heavy lists of 995..1010
+// matches; one case = (length, pattern, order)
+var capOrders = [][]keyT{
+	{{typ: tScore, desc: true}},
+	{{typ: tScore}},
+	{{typ: tText, first: true}, {typ: tScore, desc: true}},
+	{{typ: tText, desc: true}, {typ: tScore}},
+}
+
+const capMinLen, capMaxLen, capPatterns = 995, 1010, 2
+
+func capList(length, pattern int) []elem {
+	out := make([]elem, length)
+	for i := range out {
+		if pattern == 0 {
+			out[i] = elem{score: float64(1 + i%2), text: i % 3}
+		} else {
+			out[i] = elem{score: float64(1 + (i/3)%2), text: (i * i) % 3}
+		}
+	}
+	return out
+}
+
+// (n, from) with from+n in {998..1003} for from in {0,1,10,500,990,sum-1,sum}, and four settings beyond
+var capGrid = func() []nf {
+	var g []nf
+	for sum := 998; sum <= 1003; sum++ {
+		for _, f := range []int{0, 1, 10, 500, 990, sum - 1, sum} {
+			g = append(g, nf{sum - f, f})
+		}
+	}
+	return append(g, nf{1001, 0}, nf{1, 1000}, nf{20, 1100}, nf{0, 1001})
+}()
+
+func capTotal(param string) int64 {
+	return int64((capMaxLen - capMinLen + 1) * capPatterns * len(capOrders))
+}
+
+func capEval(idx int64, param string) *explore.Result {
+	oi := int(idx % int64(len(capOrders)))
+	idx /= int64(len(capOrders))
+	pattern := int(idx % capPatterns)
+	length := capMinLen + int(idx/capPatterns)
+	order := capOrders[oi]
+	elems := capList(length, pattern)
+	res := &explore.Result{}
+	rows := make([]row, len(elems))
+	for i, e := range elems {
+		rows[i] = e.row()
+	}
+	full := refOrder(rows, order)
+	rd := &stubReader{elems: elems}
+	so := blugeOrder(order)
+	h := fnv.New64a()
+	buf := make([]int, 0, 1100)
+	for _, g := range capGrid {
+		got, e := runCollector(g.n, g.from, so, elems, rd, buf)
+		want := window(full, g.n, g.from)
+		res.Evals++
+		if len(want) > 0 && !isPrefixOfArrival(want) {
+			res.Nontrivial++
+		}
+		if e != "" || !sameInts(got, want) {
+			res.Key = fmt.Sprintf("collector-cap: order=%s matches=%d pattern=%d n=%d from=%d", orderString(order), length, pattern, g.n, g.from)
+			first := -1
+			for i := 0; i < len(got) && i < len(want); i++ {
+				if got[i] != want[i] {
+					first = i
+					break
+				}
+			}
+			res.Failure = fmt.Sprintf("%s: the collector returned %d hits, the window [from, from+n) of the full ranking of %d matches has %d (first differing position %d) %s", res.Key, len(got), length, len(want), first, e)
+			return res
+		}
+		for _, v := range got {
+			_, _ = h.Write([]byte{byte(v), byte(v >> 8)})
+		}
+	}
+	res.Outcome = fmt.Sprintf("%d:%d:%d:%x", length, pattern, oi, h.Sum64())
+	if idx == 0 && oi == 0 {
+		res.Sample = map[string]interface{}{"layer": "collector-cap", "matches": length, "order": orderString(order), "settings": len(capGrid)}
+	}
+	return res
+}
+
+// enumeration 7: bluge.MultiSearch over 2 and 3 readers; the corpus is cut into
+// consecutive parts, one reader per part (document numbers restart in every
+// reader, so documents of different readers share numbers while their field
+// values differ); the reference is the order over the union, index order =
+// reader order, then order inside the reader
+type multiGroup struct {
+	name  string
+	lists [][]int
+	parts [][]int // sizes of the parts
+	keys  int
+}
+
+var multiCache = map[string][]multiGroup{}
+
+func multiGroups(param string) []multiGroup {
+	if g, ok := multiCache[param]; ok {
+		return g
+	}
+	var g []multiGroup
+	if param == "thorough" {
+		g = []multiGroup{
+			{"len=2", allLists(2), [][]int{{1, 1}}, 2},
+			{"len=3", allLists(3), [][]int{{1, 2}, {2, 1}, {1, 1, 1}}, 1},
+			{"stride len=3", strideLists(3, []int{1, 2, 4}), [][]int{{1, 2}, {1, 1, 1}}, 2},
+			{"stride len=4", strideLists(4, []int{1, 2, 3, 4, 5, 6, 7, 8}), [][]int{{2, 2}, {1, 2, 1}, {3, 1}, {1, 3}}, 1},
+			{"stride len=5", strideLists(5, []int{1, 2, 4}), [][]int{{2, 3}, {2, 1, 2}}, 1},
+		}
+	} else {
+		g = []multiGroup{
+			{"len=2", allLists(2), [][]int{{1, 1}}, 2},
+			{"stride len=3", strideLists(3, []int{1, 2, 3, 4, 5, 6, 7, 8}), [][]int{{1, 2}, {2, 1}, {1, 1, 1}}, 1},
+			{"stride len=4", strideLists(4, []int{1, 2, 4}), [][]int{{2, 2}, {1, 2, 1}, {3, 1}}, 1},
+		}
+	}
+	multiCache[param] = g
+	return g
+}
+
+func multiTotal(param string) int64 {
+	var n int64
+	for _, g := range multiGroups(param) {
+		n += int64(len(g.lists) * len(g.parts))
+	}
+	return n
+}
+
+func multiEval(idx int64, param string) *explore.Result {
+	res := &explore.Result{Counts: map[string]int64{}}
+	for _, g := range multiGroups(param) {
+		n := int64(len(g.lists) * len(g.parts))
+		if idx >= n {
+			idx -= n
+			continue
+		}
+		list := g.lists[idx/int64(len(g.parts))]
+		parts := g.parts[idx%int64(len(g.parts))]
+		where := fmt.Sprintf("multisearch: corpus=%s readers=%v", kindList(list), parts)
+		x := &e2e{list: list, numPos: map[uint64]int{}}
+		off := 0
+		for _, sz := range parts {
+			lay := layoutT{}
+			if sz >= 2 {
+				lay.split = 1 // two segments inside the reader
+			}
+			r, fail := buildIndexAt(list[off:off+sz], off, lay)
+			if fail != "" {
+				res.Failure = where + ": " + fail
+				res.Key = where + " build"
+				return res
+			}
+			defer r.Close()
+			x.rs = append(x.rs, r)
+			off += sz
+		}
+		return e2eCore(x, res, where, nOrders(3, g.keys), 3, param == "thorough", idx%53 == 0, fmt.Sprintf("readers=%v", parts))
+	}
 	return res
 }
 
@@ -1561,6 +1761,8 @@ func main() {
 	explore.RegisterEnum("c09-collector-orders", ordersTotal, ordersEval)
 	explore.RegisterEnum("c09-collector-grid", gridTotal, gridEval)
 	explore.RegisterEnum("c09-e2e", e2eTotal, e2eEval)
+	explore.RegisterEnum("c09-collector-cap", capTotal, capEval)
+	explore.RegisterEnum("c09-multisearch", multiTotal, multiEval)
 	explore.RegisterEnum("c09-e2e-shared-sortorder", sharedTotal, sharedEval)
 	explore.RegisterEnum("c09-e2e-boundary-text", boundaryTotal, boundaryEval)
 	explore.WorkerMain()
@@ -1570,6 +1772,8 @@ func main() {
 	}
 	c.Rule = "collector-orders: every sort order of 0-3 keys over {score,text,num} x {asc,desc} x {missing first,last} (1885 orders) x every match list up to a length bound over the alphabet score{1,2} x text{x,y,missing} x num{-1.5,2,missing} projected on the attributes the order reads (orders of <=2 keys: 9 letters: length<=3; 6: <=3 quick/<=4 thorough; 3: <=5/<=6; 2: <=6/<=9; orders of 3 keys: 18, 9 and 6 letters: <=2/<=3; 3: <=4/<=5; 2: <=6/<=8) x (n,from) in {0..L+1}^2 plus (11,0), (0,11), (6,5) beyond the store switch (thorough, orders of <=2 keys: all of {0..13}^2); " +
 		"collector-grid: every list of length 0..12 (thorough 0..13) over score{1,2}, of length <=5 (<=6) over text{x,missing} x score{1,2}, thorough also <=8 over score{1,2,3}, x all (n,from) in {0..13}^2 x 2-4 orders; " +
+		"collector-cap: lists of 995..1010 matches (two tie-heavy patterns over score{1,2} x text{x,y,missing}) x 4 orders (score desc, score asc, text asc missing-first + score desc, text desc + score asc) x every (n,from) with from+n in {998..1003} and from in {0,1,10,500,990,sum-1,sum} plus (1001,0),(1,1000),(20,1100),(0,1001); " +
+		"multisearch: bluge.MultiSearch over 2 and 3 readers: every 2-document list as 1|1, strided 3-document lists as 1|2, 2|1, 1|1|1 and strided 4-document lists as 2|2, 1|2|1, 3|1 (thorough: all 3-document lists, strided 4 and 5), parts of >=2 documents in two segments, x 2 queries x every order of <=2 keys (lists of 2; longer lists <=1 key) over {score,text,num} x (n,from) in {0..L+1}^2 plus (11,0),(2,9) x After and Before chains of every page size with _id appended, against the reference order over the union (reader order, then order in the reader); " +
 		"e2e-shared-sortorder: After and Before chains of page sizes 1..4 under every order of <=1 key (+_id) on a 5-document corpus where ONE search.SortOrder value is passed to every request of the chain; e2e-boundary-text: the keyword values m, 0x01, 0x00 0x00, the empty string and 0x00 next to a document without the field and a document with value n, in all 6 index orders under the 4 single-key text orders; " +
 		"e2e: corpora over 9 document kinds (orthogonal array over text{x,y,missing} x num{-1.5,2,missing} x date{1960,2020,missing} x body{w, w w, v}): quick = every list of <=2 documents in every segment layout (one batch, every split in two batches, a leading document deleted by a later batch) with every order of <=2 keys over {score,text,num,date} on the two-segment layout and of <=1 key on the others, every list of 3 documents in two segments with orders of <=1 key, 72 strided 3-document and 27 strided 6-document lists in every layout with <=1 key, one 6-document list with <=2 keys; thorough = lists <=2 with <=3 keys on the two-segment layout and <=2 keys on the others, all lists of 3 (<=1 key, two segments), strided lists of 3 (<=2 keys), 4, 5 and 6 (<=1 key, three of them <=2 keys) in every layout; each x 2 queries (match-all: equal scores; body:w: different scores, a proper subset matches) x (n,from) in {0..L+1}^2 plus (11,0),(2,9) x After and Before chains of every page size 1..matches+1 under the order with _id appended (ascending; thorough also descending) x the SortBy([]string) form where one exists; " +
 		"an evaluation is non-trivial when the expected slice is non-empty and is not simply the first matches in index order (paging requests: when the page is non-empty)"
@@ -1587,11 +1791,13 @@ func main() {
 		name string
 		q, t time.Duration
 	}{
-		{"c09-collector-orders", 16 * time.Second, 4 * time.Minute},
-		{"c09-collector-grid", 9 * time.Second, 90 * time.Second},
-		{"c09-e2e", 24 * time.Second, 4 * time.Minute},
-		{"c09-e2e-shared-sortorder", 4 * time.Second, 10 * time.Second},
-		{"c09-e2e-boundary-text", 4 * time.Second, 10 * time.Second},
+		{"c09-collector-orders", 12 * time.Second, 4 * time.Minute},
+		{"c09-collector-grid", 6 * time.Second, 90 * time.Second},
+		{"c09-collector-cap", 5 * time.Second, 30 * time.Second},
+		{"c09-e2e", 15 * time.Second, 3 * time.Minute},
+		{"c09-multisearch", 6 * time.Second, 90 * time.Second},
+		{"c09-e2e-shared-sortorder", 2 * time.Second, 10 * time.Second},
+		{"c09-e2e-boundary-text", 2 * time.Second, 10 * time.Second},
 	} {
 		if only != "" && e.name != only && e.name != "c09-"+only {
 			continue
